@@ -53,35 +53,25 @@ TWO_PI = 6.283185307179586
 
 
 # ---------------------------------------------------------------------------------------------
-# strategies.  Hypothesis draws a flat list of "genes" (unit floats, 31-bit integers) and a decoder maps them to the
-# JSON descriptor.  Reason (measured): Hypothesis' span mutator copies draws between strategies of the same type; with
-# sampled_from/ranged floats of different sizes the copy is out of range and is replaced by the simplest value, which
-# gave 40 % "no transform"/"RK45"/x0 at the window edge.  With one common range per type a copied gene decodes to an
-# ordinary value (category = gene mod n), the histogram follows the weights below, and shrinking still works
-# (gene 0 = first category / lower end of the range).
+# strategies.  Every random quantity is drawn on demand from one of two primitive strategies (a unit float, a 31-bit
+# integer) inside a composite and decoded (range = affine map, category = integer mod n).  Reason (measured):
+# Hypothesis' span mutator copies draws between strategies of the same type; with sampled_from/ranged floats of
+# different sizes the copy is out of range and is replaced by the simplest value, which gave 40 % "no transform" /
+# "RK45" / x0 at the window edge.  With one common range per type a copied draw decodes to an ordinary value, the
+# class histogram follows the weights below, and shrinking still works (0 = first category / lower end of the range).
 _U = st.floats(0.0, 1.0, allow_nan=False, width=64)
 _I = st.integers(0, 2**31 - 1)
 
 
-def _genes(nu, ni):
-    return st.fixed_dictionaries({"u": st.lists(_U, min_size=nu, max_size=nu), "i": st.lists(_I, min_size=ni, max_size=ni)})
-
-
 class Genes:
-    """Sequential reader; every component consumes a fixed number of genes whatever branch it takes."""
-
-    def __init__(self, g):
-        self.u, self.i, self.ku, self.ki = g["u"], g["i"], 0, 0
+    def __init__(self, draw):
+        self.draw = draw
 
     def f(self, lo, hi):
-        v = self.u[self.ku]
-        self.ku += 1
-        return float(lo + (hi - lo) * v)
+        return float(lo + (hi - lo) * self.draw(_U))
 
     def n(self, k):
-        v = self.i[self.ki]
-        self.ki += 1
-        return int(v % k)
+        return int(self.draw(_I) % k)
 
     def pick(self, seq):
         return seq[self.n(len(seq))]
@@ -92,21 +82,21 @@ class Genes:
 
 def _dec_sol(g):
     j = 1 + g.n(3)
-    terms = [(g.f(0.2, 1.0) * (1 if g.flag() else -1), g.f(-0.8, 0.8), g.f(0.0, 2.0), g.f(0.0, TWO_PI)) for _ in range(3)][:j]
+    terms = [(g.f(0.2, 1.0) * (1 if g.flag() else -1), g.f(-0.8, 0.8), g.f(0.0, 2.0), g.f(0.0, TWO_PI)) for _ in range(j)]
     return {"c": [t[0] for t in terms], "p": [t[1] for t in terms], "q": [t[2] for t in terms], "s": [t[3] for t in terms]}
 
 
 def _dec_coef(g, vmax=1.5, amax=1.0, bmax=0.5, lead=None):
     """lead: None = ordinary coefficient; 'signed' / 'pos' = bounded away from zero (|.| >= 0.3)."""
     kind = g.pick(["const", "sin"])
-    u1, u2, w, ph, neg = g.f(0, 1), g.f(0, 1), g.f(0.3, 1.5), g.f(0.0, TWO_PI), g.flag()
     if lead:
-        a = (0.6 + 0.9 * u1) * (-1 if (neg and lead == "signed") else 1)
-        b = -0.3 + 0.6 * u2
-        return {"kind": "const", "v": a} if kind == "const" else {"kind": "sin", "a": a, "b": b, "w": w, "ph": ph}
+        a = g.f(0.6, 1.5) * (-1 if (lead == "signed" and g.flag()) else 1)
+        if kind == "const":
+            return {"kind": "const", "v": a}
+        return {"kind": "sin", "a": a, "b": g.f(-0.3, 0.3), "w": g.f(0.3, 1.5), "ph": g.f(0.0, TWO_PI)}
     if kind == "const":
-        return {"kind": "const", "v": -vmax + 2 * vmax * u1}
-    return {"kind": "sin", "a": -amax + 2 * amax * u1, "b": -bmax + 2 * bmax * u2, "w": w, "ph": ph}
+        return {"kind": "const", "v": g.f(-vmax, vmax)}
+    return {"kind": "sin", "a": g.f(-amax, amax), "b": g.f(-bmax, bmax), "w": g.f(0.3, 1.5), "ph": g.f(0.0, TWO_PI)}
 
 
 _TF_NAMES = ["none", "identity", "linfin", "lininf", "exp", "power"] + 2 * ["becke", "knowles", "handy", "handymod", "multiexp"]
@@ -114,39 +104,41 @@ _TF_NAMES = ["none", "identity", "linfin", "lininf", "exp", "power"] + 2 * ["bec
 
 def _dec_tf(g, increasing_only=False):
     names = [k for k in _TF_NAMES if not (increasing_only and k == "multiexp")]
-    kind, inv = g.pick(names), g.flag()
-    u1, u2, u3, k = g.f(0, 1), g.f(0, 1), g.f(0, 1), g.n(12)
-    rmin4 = [0.0, 1e-3, 0.1, 0.4][k % 4]
-    R = 0.5 + 1.5 * u2
+    kind = g.pick(names)
     if kind == "none":
         return {"kind": "none"}
+    inv = g.flag()
     if kind == "identity":
         return {"kind": kind, "inv": inv}
     if kind == "linfin":
-        return {"kind": kind, "inv": inv, "rmin": u1, "rmax": u1 + 0.5 + 5.5 * u2}
+        rmin = g.f(0.0, 1.0)
+        return {"kind": kind, "inv": inv, "rmin": rmin, "rmax": rmin + g.f(0.5, 6.0)}
     if kind == "lininf":
-        return {"kind": kind, "inv": inv, "rmin": u1, "rmax": u1 + 0.5 + 5.5 * u2, "b": 2.0 + 8.0 * u3}
+        rmin = g.f(0.0, 1.0)
+        return {"kind": kind, "inv": inv, "rmin": rmin, "rmax": rmin + g.f(0.5, 6.0), "b": g.f(2.0, 10.0)}
     if kind == "exp":
-        rmin = 0.05 + 0.95 * u1
-        return {"kind": kind, "inv": inv, "rmin": rmin, "rmax": rmin * (3.0 + 97.0 * u2), "b": 3.0 + 7.0 * u3}
+        rmin = g.f(0.05, 1.0)
+        return {"kind": kind, "inv": inv, "rmin": rmin, "rmax": rmin * g.f(3.0, 100.0), "b": g.f(3.0, 10.0)}
     if kind == "power":
-        rmin, b = 0.05 + 0.95 * u1, 3.0 + 7.0 * u3
-        return {"kind": kind, "inv": False, "rmin": rmin, "rmax": rmin * (b + 1) ** (1.2 + 1.8 * u2), "b": b}
+        rmin, b = g.f(0.05, 1.0), g.f(3.0, 10.0)
+        return {"kind": kind, "inv": False, "rmin": rmin, "rmax": rmin * (b + 1) ** g.f(1.2, 3.0), "b": b}
+    rmin = g.pick([0.0, 1e-3, 0.1, 0.4])
     if kind in ("becke", "multiexp"):
-        return {"kind": kind, "inv": inv, "rmin": rmin4, "R": R}
+        return {"kind": kind, "inv": inv, "rmin": rmin, "R": g.f(0.5, 2.0)}
     if kind == "knowles":
-        return {"kind": kind, "inv": inv, "rmin": rmin4, "R": R, "k": 1 + k // 4 % 3 + (k == 11)}
+        return {"kind": kind, "inv": inv, "rmin": rmin, "R": g.f(0.5, 2.0), "k": 1 + g.n(4)}
     if kind == "handy":
-        return {"kind": kind, "inv": inv, "rmin": rmin4, "R": R, "m": 1 + k // 4}
-    m = 1 + k // 4
-    return {"kind": "handymod", "inv": inv, "rmin": rmin4, "rmax": rmin4 + 2.0**m + 0.5 + 19.5 * u3, "m": m}
+        return {"kind": kind, "inv": inv, "rmin": rmin, "R": g.f(0.5, 2.0), "m": 1 + g.n(3)}
+    m = 1 + g.n(3)
+    return {"kind": "handymod", "inv": inv, "rmin": rmin, "rmax": rmin + 2.0**m + g.f(0.5, 20.0), "m": m}
 
 
 _IVP_METHODS = ["RK45", "RK45", "DOP853", "DOP853", "Radau", "Radau", "LSODA", "RK23", "BDF"]
 
 
-def _dec_ivp(genes):
-    g = Genes(genes)
+@st.composite
+def _ivp_strategy(draw):
+    g = Genes(draw)
     order = g.pick([1, 2, 2, 3, 3])
     tf = _dec_tf(g)
     method = g.pick(_IVP_METHODS)
@@ -155,14 +147,10 @@ def _dec_ivp(genes):
     tol = g.pick([1e-9, 1e-9, 1e-8, 1e-10])
     u0, ulen = g.f(0.0, 1.0), g.f(0.3, 1.0)
     sol = _dec_sol(g)
-    low = [_dec_coef(g) for _ in range(3)][:order]
+    low = [_dec_coef(g) for _ in range(order)]
     lead = _dec_coef(g, lead="signed")
     return {"order": order, "sol": sol, "coefs": low + [lead], "tf": tf, "u0": u0, "ulen": ulen, "backward": backward,
             "method": method, "tol": tol, "as_array": as_array, "no_deriv": no_deriv}
-
-
-def _ivp_strategy():
-    return _genes(40, 24).map(_dec_ivp)
 
 
 _BC = {
@@ -179,8 +167,9 @@ _BC = {
 _FAMILIES = [("first", 1), ("maxp", 2), ("maxp", 2), ("fact", 2), ("fact", 2), ("fact", 3), ("fact", 3), ("fact", 3)]
 
 
-def _dec_bvp(genes):
-    g = Genes(genes)
+@st.composite
+def _bvp_strategy(draw):
+    g = Genes(draw)
     fam, order = g.pick(_FAMILIES)
     tf = _dec_tf(g, increasing_only=True)
     opts = _BC[(fam, order)]
@@ -191,30 +180,23 @@ def _dec_bvp(genes):
     no_deriv = g.n(3) == 2
     u0, ulen = g.f(0.0, 1.0), g.f(0.3, 1.0)
     sol = _dec_sol(g)
-    c = [_dec_coef(g), _dec_coef(g), _dec_coef(g, vmax=1.2, amax=0.8, bmax=0.4)]
-    roots = [_dec_coef(g, vmax=1.2, amax=0.8, bmax=0.4) for _ in range(3)]
-    lead, leadpos = _dec_coef(g, lead="signed"), _dec_coef(g, lead="pos")
-    ua, ub = g.f(0, 1), g.f(0, 1)
     out = {"family": fam, "order": order, "sol": sol, "tf": tf, "bc": bc, "perm": perm, "npts": npts, "tol": tol,
            "as_array": as_array, "no_deriv": no_deriv, "u0": u0, "ulen": ulen}
     if fam == "first":
-        out["coefs"] = [c[0], lead]
+        out["coefs"] = [_dec_coef(g), _dec_coef(g, lead="signed")]
     elif fam == "maxp":
         # a2 > 0 > a0 (then optionally the whole equation times -1): maximum principle => uniquely solvable for any
         # value/derivative condition per end
-        a0 = dict(c[0])
+        a0 = _dec_coef(g)
         if a0["kind"] == "const":
-            a0["v"] = -(0.1 + 1.4 * ua)
+            a0["v"] = -g.f(0.1, 1.5)
         else:
-            a0["a"], a0["b"] = -(0.4 + 1.1 * ua), -0.3 + 0.6 * ub
-        out["coefs"], out["neg"] = [a0, c[1], leadpos], neg
+            a0["a"], a0["b"] = -g.f(0.4, 1.5), g.f(-0.3, 0.3)
+        out["coefs"], out["neg"] = [a0, _dec_coef(g), _dec_coef(g, lead="pos")], neg
     else:
-        out["roots"], out["lead"] = roots[:order], lead
+        out["roots"] = [_dec_coef(g, vmax=1.2, amax=0.8, bmax=0.4) for _ in range(order)]
+        out["lead"] = _dec_coef(g, lead="signed")
     return out
-
-
-def _bvp_strategy():
-    return _genes(64, 36).map(_dec_bvp)
 
 
 # ---------------------------------------------------------------------------------------------
@@ -527,6 +509,6 @@ def selftest():
 def subchecks(tier, seed):
     quick = tier == "quick"
     return [
-        SubCheck("ivp", body_ivp, strategy=_ivp_strategy(), examples=1400 if quick else 26000, cases=_pinned_ivp(), shards=16, budget_s=100 if quick else 1100),
-        SubCheck("bvp", body_bvp, strategy=_bvp_strategy(), examples=1400 if quick else 26000, shards=16, budget_s=100 if quick else 1100),
+        SubCheck("ivp", body_ivp, strategy=_ivp_strategy(), examples=2400 if quick else 24000, cases=_pinned_ivp(), shards=16, budget_s=150 if quick else 1500),
+        SubCheck("bvp", body_bvp, strategy=_bvp_strategy(), examples=2400 if quick else 24000, shards=16, budget_s=150 if quick else 1500),
     ]
